@@ -442,7 +442,9 @@ fn judge(cx: &mut Ctx, sub: &Subject<'_>, user: &[i32], out: &[u8], tuple: &[i16
         if exp_adv_c != exp_adv {
             cx.class("advance:clamped-at-zero");
         }
-        let adv_moves = (exp_adv - adv0 as f64).abs() > 0.0;
+        // identity is demanded only where nothing that determines the advance moves: with phantom
+        // points, pp1 and pp2 are rounded separately even when they move by the same amount
+        let adv_moves = (exp_adv - adv0 as f64).abs() > 0.0 || (adv_src == "phantom" && (d1 != 0.0 || d2 != 0.0));
         if !adv_moves {
             if oadv != adv0 {
                 cx.violation("default-identity", &format!("advance-changed-without-delta:{}", adv_src), gw(format!("advance {} became {} although the model's advance delta is zero", adv0, oadv), vec![]));
